@@ -319,8 +319,15 @@ def _rand_op(rng, shape, model):
         key = _rand_key(rng, shape, True)
         if rng.random() < 0.15:
             key.append(int(rng.integers(0, 2)))  # order growth with an int in the new mode
-        kk = [_key_elem(e) for e in key]
         rhs = "scalar" if rng.random() < 0.5 else "array"
+        if rhs == "array" and rng.random() < 0.3:
+            # an index list that names a position more than once, with an array on the right: the last mention's values stay
+            for e in key:
+                lk = "l" if isinstance(e, dict) and "l" in e else "a" if isinstance(e, dict) and "a" in e else None
+                if lk and all(0 <= v for v in e[lk]) and rng.random() < 0.8:
+                    e[lk] = e[lk] + [e[lk][int(rng.integers(0, len(e[lk])))] for _ in range(int(rng.integers(1, 3)))]
+                    e[lk] = [e[lk][j] for j in rng.permutation(len(e[lk]))]
+        kk = [_key_elem(e) for e in key]
         if rhs == "array":
             kk = _from_end(kk, model.shape)
             need = _need(kk, None, model.shape)
@@ -407,7 +414,16 @@ def _apply_model(model, op):
         else:
             V = np.asarray(op["v"], dtype=float)
             full_shape = [len(i) for i in idx]
-            model.M[np.ix_(*idx)] = V.reshape(full_shape)
+            V = V.reshape(full_shape)
+            idx = [np.asarray(i) for i in idx]
+            for m_ in range(len(idx)):
+                # a position named more than once keeps what its last mention assigns
+                last = {int(p_): j_ for j_, p_ in enumerate(idx[m_])}
+                if len(last) < len(idx[m_]):
+                    sel = np.array(sorted(last.values()))
+                    V = np.take(V, sel, axis=m_)
+                    idx[m_] = idx[m_][sel]
+            model.M[np.ix_(*idx)] = V
     elif k == "set_subs":
         subs = np.array(op["subs"], dtype=int)
         model.grow((subs.max(axis=0) + 1).tolist())
